@@ -225,10 +225,21 @@ def gen_case(rng, flavour):
         lines.append("json 0 1")
         lines += queries(1, full=(flavour == "forms"))
         dbs.append(1)
-        if rng.random() < 0.25:
-            j = rng.randrange(nsig)
-            lines.append(f"ins 1 {j} late{j} -")                  # insert into a JSON-loaded database
-            lines.append("len 1")
+        if rng.random() < 0.5:
+            # further insertions into the JSON-loaded database: fresh identifiers, old and new lineages
+            # (a lineage equal to a stored one before / after the padding of `load`), one refused duplicate
+            for j in rng.sample(range(nsig), min(nsig, rng.randint(1, 3))):
+                r = rng.random()
+                lin = None if r < 0.25 else (rng.choice(lin_pool) if r < 0.7 else gen_lineage(rng, taxa))
+                if lin and rng.random() < 0.3:
+                    lin = tuple(lin) + tuple((k, 0) for k in range(len(lin), NRANKS))
+                lines.append(f"ins 1 {j} late{j} {show_lineage(lin) if lin else '-'}")
+            if rng.random() < 0.3:
+                lines.append(f"ins 1 {rng.randrange(nsig)} - -")  # usually a duplicate of a loaded identifier: refused
+            lines += queries(1, full=True)
+            if rng.random() < 0.4:
+                lines.append("json 1 4")                          # and save / load again
+                lines += queries(4, full=False)
     if use_sql:
         lines.append("sql 0 2")
         lines += queries(2, full=(flavour == "forms"))
